@@ -256,3 +256,6 @@ func TestMain(m *testing.M)   { vf.Main(m, "C07") }
 func TestCorpus(t *testing.T) { vf.Corpus(t) }
 func TestProp(t *testing.T)   { vf.RunAll(t) }
 func TestReplay(t *testing.T) { vf.ReplayEnv(t) }
+
+// native fuzz targets (thorough tier): the fuzzer mutates the byte stream that rapid decodes into generator choices
+func FuzzMUS(f *testing.F) { vf.FuzzNamed(f, "C07", "mus") }
